@@ -273,6 +273,7 @@ Proof.
   - destruct H as [Hdb [Hc [Hcur Hsub]]]. unfold Inv1w, tx_sub; simpl.
     repeat split; try apply Hc; try discriminate; auto.
   - destruct (g_versioning g); [apply create_transaction_invw; exact H | exact H].
+  - destruct ((g_versioning g || g_native g) && u_live (s_uow s)); exact H.
 Qed.
 
 Definition no_manual (evs : list ev) : Prop := ~ In ManualTx evs.
@@ -286,6 +287,7 @@ Proof.
   - destruct H as [Hdb [Hc [Hcur [Hsub Hnone]]]]. unfold Inv1, cur_ok, tx_sub; simpl.
     repeat split; try apply Hc; try discriminate; auto.
   - contradiction.
+  - destruct ((g_versioning g || g_native g) && u_live (s_uow s)); exact H.
 Qed.
 
 Theorem run_invw g evs : Inv1w (run g evs).
